@@ -7,4 +7,4 @@ Extraction Language OCaml.
 Extraction "../ocaml/c04/model.ml" sort_ring assoc_opt replicas_for rs_len rs_iter rs_nth rs_choose
   rs_ordered spec_replicas list_eqb same_set subset nodupb mem tokens_distinct dc_tokens_distinct
   ring_dcs in_dc rs_run list_run placement_ok ordered_ok computed_shard with_shards assoc_pair rs_run_hints rs_ordered_hint views_ok precomputed_ok
-  from_raw_tablet add_tablet tt_empty ts_for ts_len ts_iter ts_nth ts_choose ts_ordered ts_run.
+  from_raw_tablet add_tablet tt_empty ts_for ts_len ts_iter ts_nth ts_choose ts_ordered ts_run plist_run.
